@@ -72,6 +72,8 @@ def copy_contents(d):
 
 
 def getval(d, L):
+    if L == "l":
+        return d["l"]
     if L.startswith("n."):
         return getattr(d["n"], L[2:])
     if L.startswith("K-"):
@@ -101,6 +103,8 @@ def kref(r):
 
 
 def getref(r, L):
+    if L == "l":
+        return r["l"]
     if L.startswith("K-"):
         return kref(r)[int(L[1:])]
     if L.startswith("n."):
@@ -112,7 +116,9 @@ def getref(r, L):
 
 def assign(r, L, value):
     """Assignment through the reference API, as a user writes it."""
-    if L.startswith("K-"):
+    if L == "l":
+        r["l"] = value
+    elif L.startswith("K-"):
         kref(r)[int(L[1:])] = value
     elif L.startswith("n."):
         setattr(r["n"], L[2:], value)
@@ -228,10 +234,13 @@ def is_cyclic(defs):
             return False
         state[L] = 1
         e = defs.get(L)
-        r = any(go(x) for x in (reads(e) if e else ()))
+        rd = set(reads(e)) if e else set()
+        if L in ("l0", "l1") and "l" in defs:
+            rd.add("l")                      # the members are produced by the definition of the whole list
+        r = any(go(x) for x in rd)
         state[L] = 2
         return r
-    return any(go(L) for L in list(defs))
+    return any(go(L) for L in list(defs) + ["l0", "l1"])
 
 
 def candidates(t, locs, rich=False):
